@@ -2,4 +2,5 @@ import Gengo.Basic.Str
 import Gengo.Basic.Proto
 import Gengo.Props.C07
 import Gengo.Props.C08
+import Gengo.Props.C14
 import Gengo.Props.C19
